@@ -45,18 +45,31 @@ def run_variant(v):
     tmp = tempfile.mkdtemp(prefix="oas_selftest_")
     try:
         shutil.copytree(os.path.join(REPO, "openaerostruct"), os.path.join(tmp, "openaerostruct"), ignore=shutil.ignore_patterns("__pycache__", "docs", "examples", "*.pyc"))
-        for (rel, old, new) in v["edits"]:
+        # the surface-dictionary reference is read by the unit rules (documented units of the keys)
+        ur = os.path.join(REPO, "openaerostruct", "docs", "user_reference")
+        if os.path.isdir(ur):
+            shutil.copytree(ur, os.path.join(tmp, "openaerostruct", "docs", "user_reference"))
+        for ed in v["edits"]:
+            rel, old, new = ed[:3]
+            occ = ed[3] if len(ed) > 3 else None  # None: must be unique; int: that occurrence; "all"
             p = os.path.join(tmp, "openaerostruct", rel)
-            s = open(p).read()
-            n = s.count(old)
-            if n != 1:
+            s = open(p, newline="").read()
+            old_, new_ = old, new
+            if "\r\n" in s:
+                old_, new_ = old.replace("\n", "\r\n"), new.replace("\n", "\r\n")
+            n = s.count(old_)
+            if (occ is None and n != 1) or (isinstance(occ, int) and n <= occ) or (occ == "all" and n == 0):
                 return v, "SETUP-ERROR", "edit anchor occurs %d times in %s: %r" % (n, rel, old[:60]), time.time() - t0
-            s = s.replace(old, new)
+            if occ is None or occ == "all":
+                s = s.replace(old_, new_)
+            else:
+                parts = s.split(old_)
+                s = old_.join(parts[: occ + 1]) + new_ + old_.join(parts[occ + 1:])
             try:
                 ast.parse(s)
             except SyntaxError as e:
                 return v, "SETUP-ERROR", "variant does not parse: %s" % e, time.time() - t0
-            open(p, "w").write(s)
+            open(p, "w", newline="").write(s)
         evd = os.path.join(tmp, "evidence")
         env = dict(os.environ, OAS_EVIDENCE_DIR=evd, OAS_REPO=tmp)
         r = subprocess.run([os.path.join(VERIF, "check"), v["property"], "--repo", tmp, "--tier", v.get("tier", "quick")], capture_output=True, text=True, env=env, cwd=VERIF)
